@@ -171,7 +171,7 @@ func parseClause(text, file string, line int) (Clause, error) {
 	c := Clause{File: file, Line: line}
 	t := strings.TrimSpace(text)
 	// optional label "name: expr" (label is an identifier possibly with dots/underscores)
-	if m := regexp.MustCompile(`^([A-Za-z_][A-Za-z0-9_.]*)\s*:\s+(.*)$`).FindStringSubmatch(t); m != nil {
+	if m := regexp.MustCompile(`^([A-Za-z_][A-Za-z0-9_.]*!?)\s*:\s+(.*)$`).FindStringSubmatch(t); m != nil {
 		c.Label = m[1]
 		t = m[2]
 	}
